@@ -32,6 +32,7 @@ std::string nameOf(NiObject* o) {
 // recursive comparison of the owned sub-graphs below a (source) and b (destination)
 static NiObject* topA = nullptr;
 static NiObject* topB = nullptr;
+static bool modelSpaceStripped = false;   // Skyrim shapes with model-space normals: the clone drops normals and tangents, and with them the vertex layout kept in NiSkinPartition
 bool iso(const GraphSnap& ga, NiObject* a, const GraphSnap& gb, NiObject* b, bool top, std::set<std::pair<NiObject*, NiObject*>>& seen, std::string& err, std::string& cls, long& blocks) {
 	if (!seen.insert({a, b}).second) return true;
 	const BlockSnap& ba = ga.blocks[ga.index.at(a)];
@@ -39,7 +40,7 @@ bool iso(const GraphSnap& ga, NiObject* a, const GraphSnap& gb, NiObject* b, boo
 	blocks++;
 	if (ba.type != bb.type) { cls = "type/" + ba.type; err = "source block " + ba.type + " was cloned as " + bb.type; return false; }
 	bool boneContainer = dynamic_cast<NiBoneContainer*>(a) != nullptr;   // bone pointer lists are rebuilt by name (checked through the bone list)
-	if (!top && !boneContainer && ba.canon != bb.canon) {
+	if (!top && !boneContainer && ba.canon != bb.canon && !(modelSpaceStripped && ba.type == "NiSkinPartition")) {
 		size_t d = 0;
 		while (d < ba.canon.size() && d < bb.canon.size() && ba.canon[d] == bb.canon[d]) d++;
 		cls = "payload/" + ba.type;
@@ -101,22 +102,28 @@ void cloneCheck(NifFile& src, NiShape* srcShape, NifFile& dst, bool sameModel, c
 	std::vector<std::string> srcBones;
 	src.GetShapeBoneList(srcShape, srcBones);
 	{
-		// CloneShape brings along the bones it finds in the node tree below the source's root: shapes skinned to nodes outside
-		// that tree (only possible in synthesised files) are not part of this workload
+		// CloneShape brings along, by name, the nodes it finds strictly below the source's root: shapes skinned to the root itself or to
+		// nodes outside that tree (only possible in synthesised files), and bone names carried by several nodes, are not part of this workload
 		std::set<std::string> tree;
 		std::vector<NiNode*> todo;
-		if (auto root = src.GetRootNode()) todo.push_back(root);
+		NiNode* root = src.GetRootNode();
+		if (root) todo.push_back(root);
 		std::set<NiNode*> seenNodes;
 		while (!todo.empty()) {
 			NiNode* n = todo.back();
 			todo.pop_back();
 			if (!seenNodes.insert(n).second) continue;
-			tree.insert(n->name.get());
+			if (n != root) tree.insert(n->name.get());
 			for (auto& c : n->childRefs)
 				if (auto cn = src.GetHeader().GetBlock<NiNode>(c)) todo.push_back(cn);
 		}
-		for (auto& b : srcBones)
+		std::map<std::string, int> nameCount;
+		for (uint32_t i = 0; i < src.GetHeader().GetNumBlocks(); i++)
+			if (auto n = src.GetHeader().GetBlock<NiNode>(i)) nameCount[n->name.get()]++;
+		for (auto& b : srcBones) {
 			if (!tree.count(b)) { R_stat("shapes_with_bones_outside_the_root_tree_skipped"); return; }
+			if (nameCount[b] > 1) { R_stat("shapes_with_ambiguous_bone_names_skipped"); return; }
+		}
 	}
 	for (int r = 0; r < reps; r++) {
 		R_eval();
@@ -137,6 +144,10 @@ void cloneCheck(NifFile& src, NiShape* srcShape, NifFile& dst, bool sameModel, c
 		std::set<std::pair<NiObject*, NiObject*>> seen;
 		topA = srcShape;
 		topB = c;
+		{
+			auto shader = src.GetShader(srcShape);
+			modelSpaceStripped = shader && shader->IsModelSpace() && (dst.GetHeader().GetVersion().IsSK() || dst.GetHeader().GetVersion().IsSSE());
+		}
 		std::string err, cls;
 		long blocks = 0;
 		if (bs.type != bd.type) { R_viol("clone", "type/" + vclass, w + ": source is a " + bs.type + ", clone a " + bd.type); return; }
@@ -170,7 +181,14 @@ void cloneCheck(NifFile& src, NiShape* srcShape, NifFile& dst, bool sameModel, c
 		if (!srcShape) { R_viol("clone", "source-vanished/" + vclass, w + ": the source shape can no longer be found by name"); return; }
 	}
 	// source untouched
+	if (sameModel) {
+		R_phase("source-unchanged");
+		auto recAfter = shapeRecord(dst, srcName);
+		if (recAfter != recSrc) { R_viol("clone", "source-modified/" + vclass + "/" + diffClass(recSrc, recAfter), what + ": the source shape answers differently after it was cloned: " + firstDiff(recSrc, recAfter)); return; }
+	}
 	if (!sameModel) {
+		auto recAfter = shapeRecord(src, srcName);
+		if (recAfter != recSrc) { R_viol("clone", "source-modified/" + vclass + "/" + diffClass(recSrc, recAfter), what + ": the source shape answers differently after it was cloned: " + firstDiff(recSrc, recAfter)); return; }
 		R_phase("source-unchanged");
 		NifFile cp(src);
 		std::string after = saveNif(cp, true);
@@ -197,6 +215,40 @@ void cloneCheck(NifFile& src, NiShape* srcShape, NifFile& dst, bool sameModel, c
 	R_cover(what);
 }
 
+// Node names are not unique in real files (and CloneShape resolves parents and bones by name): cloning inside a model whose node tree
+// carries the same name on several levels re-parents nodes while the tree is being walked. Memory safety and termination only.
+void dupNameRobustness(const std::string& bytes, uint64_t seed, const std::string& what) {
+	Rng rng(seed);
+	NifFile nif;
+	if (loadNif(nif, bytes) != 0) return;
+	auto shapes = nif.GetShapes();
+	if (shapes.empty() || !nif.GetRootNode()) return;
+	R_phase("duplicate-node-names");
+	static const char* NAMES[] = {"N", "N", "M", ""};
+	std::vector<NiNode*> nodes{nif.GetRootNode()};
+	int n = 3 + (int)rng.below(8);
+	for (int i = 0; i < n; i++) {
+		NiNode* parent = nodes[rng.below((uint32_t)nodes.size())];
+		if (rng.coin(3)) parent = nodes.back();   // deep chains
+		MatTransform t;
+		t.translation = Vector3((float)i, 1.0f, 2.0f);
+		nodes.push_back(nif.AddNode(NAMES[rng.below(4)], t, parent));
+	}
+	R_eval();
+	NiShape* sh = shapes[rng.below((uint32_t)shapes.size())];
+	int reps = 1 + (int)rng.below(2);
+	for (int r = 0; r < reps; r++) {
+		NiShape* c = nif.CloneShape(sh, fmt("dupclone%d", r));
+		if (!c) { R_viol("clone", "null/duplicate-node-names", what + ": CloneShape returned null"); return; }
+	}
+	NifFile dst;
+	dst.Create(nif.GetHeader().GetVersion());
+	for (int r = 0; r < reps; r++)
+		if (!dst.CloneShape(sh, fmt("dupclone%d", r), &nif)) { R_viol("clone", "null/duplicate-node-names", what + ": CloneShape into a fresh model returned null"); return; }
+	saveNif(dst, false);
+	R_stat("clones_with_duplicate_node_names");
+}
+
 struct Plan { int api; int synPer; };
 Plan plan() { return g_cfg.tier ? Plan{1200, 12} : Plan{60, 1}; }
 
@@ -211,6 +263,7 @@ void init() {
 		ApiOpts ao;
 		ao.segments = i % 2 == 0;
 		ao.partitions = i % 3 == 0;
+		ao.modelSpace = i % 4 == 1;
 		ApiModel m = buildApiModel(mix(g_cfg.seed, 0xC14A00 + (uint64_t)i), i, &ao);
 		if (m.ok) g_models.push_back({"api:" + m.desc, m.bytes});
 	}
@@ -243,6 +296,7 @@ void run(size_t idx) {
 	if (loadNif(src, bytes) != 0) return;
 	auto shapes = src.GetShapes();
 	if (shapes.empty()) return;
+	if (mode == 0) dupNameRobustness(bytes, seed, name + " + nodes with repeated names");
 	for (size_t si = 0; si < shapes.size() && si < 4; si++) {
 		NifFile s2;
 		loadNif(s2, bytes);
